@@ -115,6 +115,9 @@ func response(it item, status int, n int) e2e.Resp {
 	if it.Status == "403cf" {
 		r.Header = append(r.Header, [2]string{"cf-mitigated", "challenge"})
 	}
+	if it.Status == "403srv" { // an ordinary block page of a Cloudflare-fronted site: no challenge, the policy accepts it
+		r.Header = append(r.Header, [2]string{"Server", "cloudflare"})
+	}
 	if it.Enc == "gzip" {
 		r.Entity, r.Encoding = e2e.Gzip(p), "gzip"
 	} else {
@@ -210,7 +213,7 @@ func policyItems(start int) []item {
 		it.Path = fmt.Sprintf("/p/%04d-%s-%s-%s-%s-%s", it.ID, st, kind, enc, strings.NewReplacer("=", "", "+", "p").Replace(size), framing)
 		out = append(out, it)
 	}
-	for _, st := range []string{"200", "301", "404", "500", "429", "403cf"} {
+	for _, st := range []string{"200", "301", "404", "500", "429", "403cf", "403srv"} {
 		add(st, "html", "identity", "cl", "2049")
 		add(st, "png", "gzip", "chunked", "2MiB+1")
 	}
@@ -243,7 +246,7 @@ func program(o *e2e.Origin, it item) int {
 	case "204":
 		o.Handle(it.Path, e2e.Resp{Status: 204})
 		return 1
-	case "200", "404":
+	case "200", "404", "403srv":
 		o.Handle(it.Path, response(it, statusCode(it.Status), it.N))
 		return 1
 	case "301":
